@@ -7,6 +7,13 @@ ROOT = os.path.dirname(os.path.dirname(os.path.abspath(__file__)))
 ALL = ["C%02d" % i for i in range(1, 20)]
 
 CHECKS = {
+    "C09": {
+        "spec": "specs/Periodic.tla (EXTENDS Controllers.tla) + PeriodicTrace.tla",
+        "text": "Periodic.tla models the six shipped services under a discrete clock (eighths of a second): wake-ups, environment actions before / on / after period boundaries in either order at equal instants. TLC checks OncePerInterval, NeverRaises, LinearDrift, the two Buffer formulas and FactoryAdjusts (plus C08's step formulas) on the model, generates timed behaviours by simulation, and validates traces recorded from the real run() methods under trio's MockClock, where every iteration is observed through its time-stamped accesses to the recording pool.",
+        "note": "virtual time only; instants are multiples of 1/8 s, runs up to ~4 s; an unobserved wake-up is accepted only where it had nothing to do (Buffer/FactoryPool) - see DESIGN; FactoryPool timing is checked with unit-demand children (C15 covers its semantics).",
+        "design": "5/C09, 4.10",
+        "technique": "TLA+ model checking (TLC) of a timed model + TLC-simulated timed behaviours replayed under a virtual clock + trace validation",
+    },
     "C15": {
         "spec": "specs/Factory.tla + FactoryTrace.tla",
         "text": "TLC checks the nine formulas of C15 on Factory.tla over all histories (demand writes, child supply/utilisation changes, children disabling themselves, mortuary collection, adjustment cycles) to a bounded depth, with the shrink order free within the sort key's ties; TLC -simulate generates behaviours (three factories) that are replayed on a real FactoryPool whose run() is stepped one interval at a time under a virtual clock, plus random histories driven against the live pool; every trace is validated by TLC (an adjustment conforms if some tie order explains it).",
